@@ -1200,12 +1200,19 @@ class AwareASTNode(DataClassSerializeMixin):
         if relative_to is not None and check_ancestor and not relative_to.is_ancestor(self):
             raise ValueError("relative_to must be an ancestor of this node")
 
-        if self.parent is None:
-            return 0
-        elif relative_to is not None and self.parent is relative_to:
-            return 1
-        else:
-            return self.parent.get_depth(relative_to=relative_to, check_ancestor=False) + 1
+        # Walk up iteratively: trees may be deeper than the recursion limit
+        depth = 0
+        parent = self.parent
+
+        while parent is not None:
+            depth += 1
+
+            if relative_to is not None and parent is relative_to:
+                break
+
+            parent = parent.parent
+
+        return depth
 
     def ancestors(self) -> t.Iterator[AwareASTNode]:
         """Iterates over all ancestors of this node."""
@@ -1248,12 +1255,15 @@ class AwareASTNode(DataClassSerializeMixin):
 
     def is_ancestor(self, node: AwareASTNode) -> bool:
         """Returns True if this node is an ancestor of `node`."""
-        if node.parent is None:
-            return False
-        elif node.parent is self:
-            return True
-        else:
-            return self.is_ancestor(node.parent)
+        parent = node.parent
+
+        while parent is not None:
+            if parent is self:
+                return True
+
+            parent = parent.parent
+
+        return False
 
     def is_equal(self, other: t.Any) -> bool:
         """Returns True if this node is equal to `other`.
